@@ -218,6 +218,65 @@ theorem floor_le_ceil (a : Rat) : a.floor ≤ a.ceil := by
 example : (7 / 2 : Rat).floor = 3 ∧ (7 / 2 : Rat).ceil = 4 ∧ (-7 / 2 : Rat).floor = -4 ∧ (-7 / 2 : Rat).ceil = -3
     ∧ inInt64 (7 / 2 : Rat).floor = true := by decide +kernel
 
+/-! ### ceil and floor return integers: on every receiver in the `int64` range, and only there
+
+Go's `int(f)` is defined for `f` in the range of `int` only; outside it the result is implementation-defined (on
+amd64 `{{ 1e19 | ceil }}`, `{{ -1e19 | floor }}` and `{{ 9223372036854775808.0 | floor }}` all print
+-9223372036854775808) and the model answers `unmodelled`. -/
+
+theorem floor_ceil_return_int (a : Rat) (h1 : ((-(2 ^ 63) : Int) : Rat) ≤ a) (h2 : a ≤ ((2 ^ 63 - 1 : Int) : Rat)) :
+    Num.floor [fv a] = ret (.int .int a.floor) ∧ Num.ceil [fv a] = ret (.int .int a.ceil) := by
+  have f1 : -(2 ^ 63) ≤ a.floor := Rat.le_floor_iff.2 h1
+  have f2 : a.floor ≤ 2 ^ 63 - 1 := Rat.intCast_le_intCast.1 (Rat.le_trans (Rat.floor_le a) h2)
+  have c1 : -(2 ^ 63) ≤ a.ceil := Rat.intCast_le_intCast.1 (Rat.le_trans h1 Rat.le_ceil)
+  have c2 : a.ceil ≤ 2 ^ 63 - 1 := Rat.ceil_le_iff.2 h2
+  exact ⟨(floor_spec a (inInt64_iff.2 ⟨f1, f2⟩)).1, (ceil_spec a (inInt64_iff.2 ⟨c1, c2⟩)).1⟩
+
+/-- exactly: `floor` returns an integer iff `-2^63 ≤ a < 2^63`, and is outside the model otherwise -/
+theorem floor_range (a : Rat) :
+    (((-(2 ^ 63) : Int) : Rat) ≤ a ∧ a < ((2 ^ 63 : Int) : Rat) → Num.floor [fv a] = ret (.int .int a.floor)) ∧
+    (a < ((-(2 ^ 63) : Int) : Rat) ∨ ((2 ^ 63 : Int) : Rat) ≤ a →
+      Num.floor [fv a] = .unmodelled "float→int conversion out of range is implementation-defined") := by
+  constructor
+  · intro ⟨h1, h2⟩
+    have f1 : -(2 ^ 63) ≤ a.floor := Rat.le_floor_iff.2 h1
+    have f2 : a.floor < 2 ^ 63 := Rat.floor_lt_iff.2 h2
+    exact (floor_spec a (inInt64_iff.2 ⟨f1, by omega⟩)).1
+  · intro h
+    have : inInt64 a.floor = false := by
+      apply Bool.eq_false_iff.2
+      intro hin
+      obtain ⟨f1, f2⟩ := inInt64_iff.1 hin
+      rcases h with h | h
+      · exact absurd (Rat.le_floor_iff.1 f1) (Rat.not_le.2 h)
+      · have : a.floor < 2 ^ 63 := by omega
+        exact absurd h (Rat.not_le.2 (Rat.floor_lt_iff.1 this))
+    simp [Num.floor, Num.intResult, this]
+
+/-- exactly: `ceil` returns an integer iff `-2^63 - 1 < a ≤ 2^63 - 1`, and is outside the model otherwise -/
+theorem ceil_range (a : Rat) :
+    (((-(2 ^ 63) - 1 : Int) : Rat) < a ∧ a ≤ ((2 ^ 63 - 1 : Int) : Rat) → Num.ceil [fv a] = ret (.int .int a.ceil)) ∧
+    (a ≤ ((-(2 ^ 63) - 1 : Int) : Rat) ∨ ((2 ^ 63 - 1 : Int) : Rat) < a →
+      Num.ceil [fv a] = .unmodelled "float→int conversion out of range is implementation-defined") := by
+  constructor
+  · intro ⟨h1, h2⟩
+    have c1 : -(2 ^ 63) - 1 < a.ceil := Rat.lt_ceil_iff.2 h1
+    have c2 : a.ceil ≤ 2 ^ 63 - 1 := Rat.ceil_le_iff.2 h2
+    exact (ceil_spec a (inInt64_iff.2 ⟨by omega, c2⟩)).1
+  · intro h
+    have : inInt64 a.ceil = false := by
+      apply Bool.eq_false_iff.2
+      intro hin
+      obtain ⟨f1, f2⟩ := inInt64_iff.1 hin
+      rcases h with h | h
+      · have : -(2 ^ 63) - 1 < a.ceil := by omega
+        exact absurd h (Rat.not_le.2 (Rat.lt_ceil_iff.1 this))
+      · exact absurd (Rat.ceil_le_iff.1 f2) (Rat.not_le.2 h)
+    simp [Num.ceil, Num.intResult, this]
+
+example : (((-(2 ^ 63) : Int) : Rat) ≤ -9223372036854775808 ∧ (-9223372036854775808 : Rat) < ((2 ^ 63 : Int) : Rat))
+    ∧ ((2 ^ 63 : Int) : Rat) ≤ (10 ^ 19 : Nat) ∧ ((2 ^ 63 - 1 : Int) : Rat) < (10 ^ 19 : Nat) := by decide +kernel
+
 /-! ## round: half up to the requested number of places -/
 
 /-- the value `round` computes when every step is exact: `⌊x·10ᵖ + 1/2⌋ / 10ᵖ` -/
